@@ -136,32 +136,32 @@ func lawScenario(r *mc.Registry, name string, nodes []*node) {
 		}
 		c := x.Choose(cs, "c")
 		x.Tag(n.name)
-		fams := []string{"eq"}
+		// one family per execution, so a defect of the eq-package instance cannot hide one of
+		// the hash-package instance of the same type
+		fam := "eq"
 		if n.hasHash() {
-			fams = append(fams, "hash")
+			fam = mc.Pick(x, "family", []string{"eq", "hash"})
 		}
-		for _, fam := range fams {
-			law, msg := n.law(fam, a, b, c)
-			x.Logf("%s.%s on a=%s b=%s c=%s: %s", fam, n.name, n.show(n.dom[a]), n.show(n.dom[b]), n.show(n.dom[c]), orOK(law))
-			if law != "" {
-				cu := n.culprit(fam)
-				via := ""
-				if cu != n {
-					via = fmt.Sprintf(" (attributed to the component instance %s.%s, which violates %q on its own domain)", fam, cu.name, cu.selfcheck(fam))
-				}
-				x.Fail(fam+"."+cu.head+"/"+law, "%s%s", msg, via)
+		law, msg := n.law(fam, a, b, c)
+		x.Logf("%s.%s on a=%s b=%s c=%s: %s", fam, n.name, n.show(n.dom[a]), n.show(n.dom[b]), n.show(n.dom[c]), orOK(law))
+		if law != "" {
+			cu := n.culprit(fam)
+			via := ""
+			if cu != n {
+				via = fmt.Sprintf(" (attributed to the component instance %s.%s, which violates %q on its own domain)", fam, cu.name, cu.selfcheck(fam))
 			}
+			x.Fail(fam+"."+cu.head+"/"+law, "%s%s", msg, via)
 		}
 		// outcome: which of the three are equal (by the reference, already compared with the
 		// library's answer above)
 		l1 := n.pattern(a, b, c)
-		x.Observe(n.name, l1)
+		x.Observe(fam, n.name, l1)
 		if a != b && b != c && a != c {
 			x.NonTrivial()
 		}
 		if a != b && l1[0] == '1' {
 			x.Tag("pairs: equal values, different representation")
-			if n.hasHash() {
+			if fam == "hash" {
 				x.Tag("pairs: hash agreement demanded on different representations")
 			}
 		}
@@ -181,7 +181,7 @@ func orOK(s string) string {
 
 func main() {
 	mc.Main("C09", func(r *mc.Registry) {
-		r.Rule = "execution = (instance expression, a, b, c) with a,b,c ranging over the whole value domain of the instance's type (all triples; for the arity blocks in the quick tier c ranges over 4 values, a and b over all n+4 values, one of which differs from the base in position k only, for every k); each execution evaluates Eqv(a,a), Eqv(a,b), Eqv(b,a), Eqv(b,c), Eqv(a,c) and Hash(a) twice, Hash(b) on the library's instance and compares with component-wise equality computed by plain loops; non-trivial = a, b, c are three different domain elements; distinct outcome = (instance, equality pattern of the triple)"
+		r.Rule = "execution = (instance expression, a, b, c, family eq|hash) with a,b,c ranging over the whole value domain of the instance's type (all triples; for the arity blocks in the quick tier c ranges over 4 values, a and b over all n+4 values, one of which differs from the base in position k only, for every k); each execution evaluates Eqv(a,a), Eqv(a,b), Eqv(b,a), Eqv(b,c), Eqv(a,c) and Hash(a) twice, Hash(b) on the library's instance and compares with component-wise equality computed by plain loops; non-trivial = a, b, c are three different domain elements; distinct outcome = (family, instance, equality pattern of the triple)"
 		r.Assumptions = []string{
 			"NaN is excluded from the float domains (the property excludes it)",
 			"Hash values are free: only determinism and Eqv(a,b) => Hash(a)==Hash(b) are demanded",
